@@ -51,6 +51,10 @@ def generate(rng, tier):
         if rng.random() < 0.3:
             tree["N/M"] = {"t": "d"}
             tree["N/M/m.bin"] = {"t": "f", "c": gen.unique_content(rng)}
+            if rng.random() < 0.5:
+                # a fourth level: root > N > N/M > N/M/K
+                tree["N/M/K"] = {"t": "d"}
+                tree["N/M/K/k.bin"] = {"t": "f", "c": gen.unique_content(rng)}
         if rng.random() < 0.35:
             # siblings whose names merely start with the name of the nested history folder
             for rel in rng.sample(["N2/p.bin", "N_proxy/p1.mov", "N.bin", "Nx", "N 2/q.bin"], rng.randint(1, 2)):
@@ -62,7 +66,9 @@ def generate(rng, tier):
     ops = []
     nested_ops = []
     if nested:
-        if "N/M" in tree and rng.random() < 0.7:
+        if "N/M/K" in tree and rng.random() < 0.8:
+            nested_ops.append(scen.cmd("create", "@R/N/M/K", *gen.fmt_args(gen.pick_formats(rng, 1, 2))))
+        if "N/M" in tree and rng.random() < (0.95 if "N/M/K" in tree else 0.7):
             nested_ops.append(scen.cmd("create", "@R/N/M", *gen.fmt_args(gen.pick_formats(rng, 1, 2))))
         nested_ops.append(scen.cmd("create", "@R/N", *gen.fmt_args(gen.pick_formats(rng, 1, 2))))
         if "S" in tree and rng.random() < 0.7:
